@@ -16,14 +16,14 @@ import (
 var sloDims = []dim{
 	{"transport", []string{"post-body", "get-query"}},
 	{"encoding", []string{"default", "deflate", "bogus"}},
-	{"relay", []string{"rs-1", "", "meta"}},
+	{"relay", []string{"rs-1", "", "meta", "edge-space"}},
 	{"payload", []string{"logout", "empty", "badb64", "notxml", "wrongroot"}},
 	{"id", []string{"set", "absent", "meta"}},
 	{"issuer", []string{"registered", "absent", "unregistered"}},
 	{"nameid", []string{"present", "absent"}},
 	{"sessionindex", []string{"absent", "present"}},
 	{"issueinstant", []string{"past", "future", "empty", "garbage", "past-frac"}},
-	{"notonorafter", []string{"absent", "future", "past", "garbage"}},
+	{"notonorafter", []string{"absent", "future", "past", "garbage", "zero-time"}},
 	{"slo", []string{"one", "none", "two"}},
 	{"lookup", []string{"ok", "fail"}},
 	{"style", []string{"0", "1"}},
@@ -91,6 +91,8 @@ func logoutXML(c Case, now time.Time) (string, string) {
 		fmt.Fprintf(&b, ` NotOnOrAfter="%s"`, now.Add(-10*time.Minute).UTC().Format("2006-01-02T15:04:05Z"))
 	case "garbage":
 		b.WriteString(` NotOnOrAfter="later"`)
+	case "zero-time":
+		b.WriteString(` NotOnOrAfter="0001-01-01T00:00:00Z"`) // a valid instant, long past
 	}
 	b.WriteString(">")
 	switch c["issuer"] {
@@ -165,6 +167,8 @@ func runSlo(c Case) *SloRun {
 		r.Relay = "rs-1"
 	case "meta":
 		r.Relay = metaString
+	case "edge-space":
+		r.Relay = " \ttoken with edges \n"
 	}
 	form := url.Values{}
 	if payload != "" || c["payload"] != "empty" {
